@@ -1,0 +1,9 @@
+//go:build !verif
+
+package recovery
+
+import "time"
+
+// No-op twins of the verification hooks (see verif_on.go).
+func verifAttempt(int, error)       {}
+func verifDelay(int, time.Duration) {}
